@@ -68,6 +68,26 @@ def lpt_split(cases: list[dict], n: int) -> list[list[dict]]:
   return [b for b in bins if b]
 
 
+import threading
+_STOP = threading.Event()
+
+
+def _has_unknown_violation(out_path, prop) -> bool:
+  """Fail-fast helper (self-test only): has this shard already recorded a non-known violation?"""
+  try:
+    with open(out_path) as f:
+      r = json.load(f)
+  except Exception:  # pylint: disable=broad-except
+    return False
+  ex = r.get('export') or {}
+  known = load_known(prop)
+  for v in ex.get('violations', []):
+    k = v.get('known')
+    if not (k and k in known and known[k].get('status') == 'known'):
+      return True
+  return False
+
+
 def run_shard(prop, tier, seed, env, cases, repo, timeout, workdir, idx):
   shard_path = os.path.join(workdir, f'shard-{idx}.json')
   out_path = os.path.join(workdir, f'out-{idx}.json')
@@ -82,14 +102,31 @@ def run_shard(prop, tier, seed, env, cases, repo, timeout, workdir, idx):
   penv.pop('XLA_FLAGS', None)
   t0 = time.time()
   status = 'ok'
-  try:
-    with open(log_path, 'w') as log:
-      p = subprocess.run([PY, '-m', 'vp.worker', shard_path, out_path], cwd=HERE, env=penv,
-                         stdout=log, stderr=subprocess.STDOUT, timeout=timeout)
-    if p.returncode != 0:
+  fail_fast = os.environ.get('VP_FAIL_FAST') == '1'
+  with open(log_path, 'w') as log:
+    p = subprocess.Popen([PY, '-m', 'vp.worker', shard_path, out_path], cwd=HERE, env=penv,
+                         stdout=log, stderr=subprocess.STDOUT)
+    while True:
+      try:
+        p.wait(timeout=2.0)
+        break
+      except subprocess.TimeoutExpired:
+        pass
+      if time.time() - t0 > timeout:
+        p.kill()
+        p.wait()
+        status = 'timeout'
+        break
+      if fail_fast:
+        if _STOP.is_set():
+          p.kill()
+          p.wait()
+          status = 'stopped'
+          break
+        if _has_unknown_violation(out_path, prop):
+          _STOP.set()
+    if status == 'ok' and p.returncode != 0:
       status = f'exit{p.returncode}'
-  except subprocess.TimeoutExpired:
-    status = 'timeout'
   res = None
   if os.path.exists(out_path):
     try:
@@ -165,6 +202,8 @@ def check(prop: str, tier: str, seed: int, only_cases: list[dict] | None = None,
   cases_done = 0
   for o in outs:
     r = o['result']
+    if (r is None or r.get('export') is None) and o['status'] == 'stopped':
+      continue
     if r is None or r.get('export') is None:
       infra.append(f"shard {o['idx']} ({o['env']}) {o['status']}: no result; log: {o['log_tail'][-400:]!r}")
       continue
@@ -173,6 +212,8 @@ def check(prop: str, tier: str, seed: int, only_cases: list[dict] | None = None,
     case_errors.extend(r.get('case_errors', []))
     if r.get('status') == 'wrong_repo':
       infra.append(r.get('detail', 'wrong repo'))
+    elif o['status'] == 'stopped':
+      pass  # fail-fast: another shard already found a violation
     elif o['status'] != 'ok' or r.get('status') != 'done':
       infra.append(f"shard {o['idx']} ({o['env']}) {o['status']}/{r.get('status')} while running "
                    f"case {r.get('running')}; log: {o['log_tail'][-400:]!r}")
